@@ -569,32 +569,7 @@ func (c *Ctx) ruleG3() {
 		k := ord[s.fn]
 		ord[s.fn]++
 		cons := fmt.Sprintf("%s→Subscribe#%d→Close", fnKey(s.fn), k)
-		d := derived([]ssa.Value{s.call.Value()}, flowOpts{intoClosures: true})
-		closedSub := false
-		for _, g := range withClosures(topLevel(s.fn)) {
-			eachCall(g, func(call ssa.CallInstruction) {
-				if methodName(call) == "Close" && recvOf(call) != nil && d[recvOf(call)] {
-					closedSub = true
-				}
-			})
-			// handed to a repo helper that closes it
-			eachCall(g, func(call ssa.CallInstruction) {
-				if h := call.Common().StaticCallee(); h != nil && h.Blocks != nil && h.Pkg != nil && inRepo(h.Pkg.Pkg) {
-					for i, a := range call.Common().Args {
-						if d[a] && i < len(h.Params) {
-							dp := derived([]ssa.Value{h.Params[i]}, flowOpts{intoClosures: true})
-							for _, hh := range withClosures(h) {
-								eachCall(hh, func(c2 ssa.CallInstruction) {
-									if methodName(c2) == "Close" && recvOf(c2) != nil && dp[recvOf(c2)] {
-										closedSub = true
-									}
-								})
-							}
-						}
-					}
-				}
-			})
-		}
+		closedSub := c.reachesCloseOf([]ssa.Value{s.call.Value()}, topLevel(s.fn), 0, map[*ssa.Function]bool{})
 		if closedSub {
 			c.ok("G3", cons, s.call.Pos(), "the subscription is closed by the goroutine that consumes it")
 		} else {
@@ -649,6 +624,86 @@ func (c *Ctx) ruleG3() {
 			}
 		}
 	}
+}
+
+// reachesCloseOf: a Close() is called on the value (a subscription), following it inside the
+// function and its closures, into repo callees it is passed to (including goroutines started
+// with it) and out to the callers it is returned to.
+func (c *Ctx) reachesCloseOf(seeds []ssa.Value, f *ssa.Function, depth int, seen map[*ssa.Function]bool) bool {
+	if f == nil || depth > 4 {
+		return false
+	}
+	d := derived(seeds, flowOpts{intoClosures: true})
+	found := false
+	type next struct {
+		seeds []ssa.Value
+		fn    *ssa.Function
+	}
+	var nexts []next
+	for _, g := range withClosures(f) {
+		eachCall(g, func(call ssa.CallInstruction) {
+			if found {
+				return
+			}
+			if methodName(call) == "Close" && recvOf(call) != nil && d[recvOf(call)] {
+				found = true
+				return
+			}
+			if h := call.Common().StaticCallee(); h != nil && h.Blocks != nil && h.Pkg != nil && inRepo(h.Pkg.Pkg) && topLevel(h) != f {
+				var ps []ssa.Value
+				for i, a := range call.Common().Args {
+					if d[a] && i < len(h.Params) {
+						ps = append(ps, h.Params[i])
+					}
+				}
+				if len(ps) > 0 {
+					nexts = append(nexts, next{ps, h})
+				}
+			}
+		})
+		eachInstr(g, func(in ssa.Instruction) {
+			r, ok := in.(*ssa.Return)
+			if !ok || g != f {
+				return
+			}
+			ret := false
+			for _, v := range r.Results {
+				for _, rv := range resolveSpill(v) {
+					if d[rv] || d[v] {
+						ret = true
+					}
+				}
+			}
+			if !ret {
+				return
+			}
+			// callers of f
+			for _, caller := range c.RepoFns {
+				if c.isTestFile(caller.Pos()) {
+					continue
+				}
+				eachCall(caller, func(call ssa.CallInstruction) {
+					if call.Common().StaticCallee() == f && call.Value() != nil {
+						nexts = append(nexts, next{[]ssa.Value{call.Value()}, topLevel(caller)})
+					}
+				})
+			}
+		})
+	}
+	if found {
+		return true
+	}
+	for _, n := range nexts {
+		key := n.fn
+		if seen[key] && depth > 0 {
+			continue
+		}
+		seen[key] = true
+		if c.reachesCloseOf(n.seeds, n.fn, depth+1, seen) {
+			return true
+		}
+	}
+	return false
 }
 
 // ---------------------------------------------------------------------------
